@@ -27,7 +27,7 @@ ID = "C05"
 LEVEL = "exploration"
 SHARDS = {"quick": 4, "thorough": 16}
 RULE = (
-    "Hypothesis draws programs (depth<=5, <=30 nodes) over ops: check(name,size), hole-check({k}), call(kind in new-typeguard/"
+    "Hypothesis draws programs (depth<=5, <=30 nodes) over ops: check(name,size), failing check after a tentative binding, hole-check({k}), call(kind in new-typeguard/"
     "new-beartype/old-typeguard/none/method/dataclass/context/one shared re-entered context object; exit in return/Exception/KeyboardInterrupt/custom BaseException/"
     "CancelledError/GeneratorExit/ill-typed parameter/ill-typed return) with a nested body, make-generator / make-coroutine "
     "(driven after the creating call returned; a third of the generators are advanced one step right away, inside the creating frame's caller). After every node the bindings transcript is compared with a model stack. "
@@ -87,6 +87,8 @@ class Interp:
             op = n["op"]
             if op == "check":
                 self.do_check(n)
+            elif op == "failcheck":
+                self.do_failcheck(n)
             elif op == "hole":
                 self.do_hole(n)
             elif op == "call":
@@ -112,6 +114,13 @@ class Interp:
             exp = "True"
         if got != exp:
             self.fail("check-verdict", f"check {n['name']}={n['size']} at depth {len(self.stack)} gave {got}, model says {exp} (model context {self.stack[-1]['b'] if self.stack else 'none'})")
+
+    def do_failcheck(self, n):
+        """A check that can only fail, after having tentatively bound its first axis (if that was unbound or agrees): nothing may
+        remain of it, in this frame or any other."""
+        got = obs.verdict(np.zeros((n["size"], n["size"] + 1)), Shaped[np.ndarray, f"{n['name']} {n['name']}"])
+        if got != "False":
+            self.fail("check-verdict", f"failing check '{n['name']} {n['name']}' on ({n['size']}, {n['size'] + 1}) gave {got}")
 
     def do_hole(self, n):
         got = obs.verdict(np.zeros((n["size"],)), Shaped[np.ndarray, "{k}"])
@@ -329,6 +338,7 @@ def check_program(ctx, program):
 def node_strategy(depth):
     check = st.fixed_dictionaries({"op": st.just("check"), "name": st.sampled_from(["p", "a", "b"]), "size": st.sampled_from([2, 3, 4])})
     hole = st.fixed_dictionaries({"op": st.just("hole"), "size": st.sampled_from([1, 2, 3])})
+    failcheck = st.fixed_dictionaries({"op": st.just("failcheck"), "name": st.sampled_from(["p", "a", "b"]), "size": st.sampled_from([2, 3, 4])})
     gen = st.fixed_dictionaries({
         "op": st.just("gen"), "kind": st.sampled_from(["generator", "coroutine"]), "checker": st.sampled_from(["typeguard", "beartype"]),
         "psize": st.sampled_from([2, 3, 4]), "k": st.sampled_from([1, 2, 3]),
@@ -336,7 +346,7 @@ def node_strategy(depth):
         "advance": st.sampled_from([True, False, False]),
     })
     if depth <= 0:
-        return st.one_of(check, check, hole, gen)
+        return st.one_of(check, check, hole, gen, failcheck)
     call = st.fixed_dictionaries({
         "op": st.just("call"),
         "kind": st.sampled_from(KINDS),
@@ -346,7 +356,7 @@ def node_strategy(depth):
         "k": st.sampled_from([1, 2, 3]),
         "body": st.lists(st.deferred(lambda: node_strategy(depth - 1)), max_size=4),
     })
-    return st.one_of(call, call, call, check, check, hole, gen)
+    return st.one_of(call, call, call, check, check, hole, gen, failcheck)
 
 
 def run(ctx):
